@@ -28,14 +28,53 @@ def run_property(prop, tier='quick', seed=0, root=None, overlay=None, quiet=Fals
         rep.analysed.update(repo.stats())
         mod = importlib.import_module('checks.' + prop.lower())
         mod.run(repo, rep)
-        if tier == 'thorough' and write and hasattr(mod, 'selfvalidate'):
-            mod.selfvalidate(repo, rep)
+        if tier == 'thorough' and write and not overlay:
+            selfvalidate(prop, rep)
     except AnalysisError as e:
         rep.error(str(e))
     except Exception as e:  # internal error: exit 2, never 1
         rep.error('internal error: %s: %s\n%s' % (type(e).__name__, e, traceback.format_exc()))
     rep.finish()
     return rep
+
+
+def _variant_job(args):
+    name, prop = args
+    from selftest.variants import VARIANTS
+    from selftest.harness import run_variant, Variant
+    v = [x for x in VARIANTS if x.name == name][0]
+    one = Variant(prop, v.kind, v.name, v.edits, v.expect_rule, v.note)
+    st, d = run_variant(one, 'quick')
+    return name, v.kind, st, d[:300]
+
+
+def selfvalidate(prop, rep):
+    """thorough tier: every breaker variant of this property (an in-memory overlay that falsifies one
+    rule instance) must make the check fire, every twin (behaviour-preserving rewrite) must leave it
+    silent.  A failed self-validation means the checker is not to be believed: exit 2."""
+    from selftest.variants import VARIANTS
+    jobs = []
+    for v in VARIANTS:
+        props = v.prop if isinstance(v.prop, (tuple, list)) else (v.prop,)
+        if prop in props:
+            jobs.append((v.name, prop))
+    if not jobs:
+        rep.selfvalidation = {'variants': 0}
+        return
+    import multiprocessing
+    with multiprocessing.get_context('fork').Pool(min(16, len(jobs))) as pool:
+        results = pool.map(_variant_job, jobs)
+    fired = sum(1 for _, k, st, _ in results if k == 'breaker' and st == 'ok')
+    silent = sum(1 for _, k, st, _ in results if k == 'twin' and st == 'ok')
+    skipped = [n for n, _, st, _ in results if st == 'SKIPPED']
+    bad = [(n, k, st, d) for n, k, st, d in results if st not in ('ok', 'SKIPPED')]
+    rep.selfvalidation = {
+        'variants': len(results), 'breakers_fired': fired, 'twins_silent': silent,
+        'skipped_anchor_text_absent': skipped, 'failures': [{'variant': n, 'kind': k, 'status': st, 'detail': d} for n, k, st, d in bad],
+    }
+    rep.count(len(results))
+    for n, k, st, d in bad:
+        rep.error('self-validation failed: %s variant %s -> %s (%s)' % (k, n, st, d))
 
 
 def main():
